@@ -40,6 +40,7 @@ CONSTANTS
   Acts,        \* operation families the generator may use
   MaxLen,      \* bound on the symbol length of a buffer (generation bound)
   D,           \* bound on Len(hist)
+  Warm,        \* the first Warm calls are forced to be add(buffer 1, one filler symbol): multi-chain start states
   CbMode       \* 0: no callbacks (C12)  1: immediate callbacks  2: deferred callbacks (C13)
 
 VARIABLES st, hist, pend
@@ -179,9 +180,17 @@ InitSt ==
     fs |-> [b \in Bufs |-> FALSE], fe |-> [b \in Bufs |-> FALSE],
     sp |-> [b \in Bufs |-> FALSE],          \* may hold file-segment / multicast chains
     ec |-> [b \in Bufs |-> FALSE],          \* empty, but may own an (empty) chain
+    mo |-> [b \in Bufs |-> FALSE],
+    tag |-> [b \in Bufs |-> <<>>],          \* per symbol: 0 plain, else the id of the reference / file segment / multicast copy it lives in
+    nid |-> 0,                               \* ids handed out so far
+    own |-> {},                              \* ids of references (1..) and file segments whose cleanup callback is owed
+    seg |-> {},                              \* the subset of own that are file segments
+    par |-> <<>>,                            \* par[id] = the id a multicast copy keeps alive (0: none)
+    mcu |-> FALSE,                           \* add_buffer_reference has shared chains between the buffers          \* may hold multicast chains that reference the other buffer
     cb |-> [b \in Bufs |-> [k \in 1..NCB |-> InitCb]],
     cbo |-> [b \in Bufs |-> <<>>],
     acc |-> [b \in Bufs |-> <<0, 0>>], led |-> [b \in Bufs |-> 0],
+    fdin |-> <<>>,                           \* bytes waiting in the socket evbuffer_read reads from (C16)
     pq |-> <<>>,                             \* buffers whose deferred run is scheduled, in scheduling order
     cblog |-> <<>> ]
 
@@ -189,17 +198,29 @@ SetBuf(S, b, s) == [S EXCEPT !.buf[b] = s, !.sp[b] = IF s = <<>> THEN FALSE ELSE
 R(S, r) == [s |-> S, o |-> [r |-> r]]
 RX(S, r, x) == [s |-> S, o |-> [r |-> r] @@ x]
 
-(* append d to b / remove k symbols from the front of b, with callback accounting *)
-Append_(S, b, d) == Changed(SetBuf(S, b, S.buf[b] \o d), b, Bytes(d), 0)
-Prepend_(S, b, d) == Changed(SetBuf(S, b, d \o S.buf[b]), b, Bytes(d), 0)
-DropFront(S, b, k) == Changed(SetBuf(S, b, Drop(S.buf[b], k)), b, 0, BP(S.buf[b], k))
+(* append d to b / remove k symbols from the front of b, with callback accounting; tags follow the symbols *)
+ZT(d) == [i \in 1..Len(d) |-> 0]
+AppendT(S, b, d, tg) == Changed([SetBuf(S, b, S.buf[b] \o d) EXCEPT !.tag[b] = @ \o tg], b, Bytes(d), 0)
+Append_(S, b, d) == AppendT(S, b, d, ZT(d))
+Prepend_(S, b, d) == Changed([SetBuf(S, b, d \o S.buf[b]) EXCEPT !.tag[b] = ZT(d) \o @], b, Bytes(d), 0)
+DropFront(S, b, k) == Changed([SetBuf(S, b, Drop(S.buf[b], k)) EXCEPT !.tag[b] = Drop(@, k)], b, 0, BP(S.buf[b], k))
+(* a new id (reference, segment or multicast copy) *)
+NewId(S, parent) == [S EXCEPT !.nid = @ + 1, !.par = Append(@, parent)]
+(* a chain cut by a partial remove_buffer / pullup: the part that was copied is plain memory now *)
+ClearTail(mt, t) == [i \in 1..Len(mt) |-> IF mt[i] = t /\ (\A j \in i..Len(mt) : mt[j] = t) THEN 0 ELSE mt[i]]
 
 (* move the first k symbols of src to the end (front = TRUE: the front) of dst.
    order = which buffer's callbacks run first *)
 Move(S, src, dst, k, front, srcFirst) ==
   LET m == Take(S.buf[src], k)
+      mt0 == Take(S.tag[src], k)
+      cut == k > 0 /\ k < Len(S.buf[src]) /\ S.tag[src][k] # 0 /\ S.tag[src][k] = S.tag[src][k + 1]
+      mt == IF cut THEN ClearTail(mt0, S.tag[src][k]) ELSE mt0
       S1 == [SetBuf(SetBuf(S, dst, IF front THEN m \o S.buf[dst] ELSE S.buf[dst] \o m), src, Drop(S.buf[src], k))
-             EXCEPT !.sp[dst] = (@ \/ S.sp[src]) /\ (Len(S.buf[dst]) + k > 0)]
+             EXCEPT !.sp[dst] = (@ \/ S.sp[src]) /\ (Len(S.buf[dst]) + k > 0),
+                    !.tag = [b \in Bufs |-> IF b = src /\ b = dst THEN S.tag[b]
+                                            ELSE IF b = dst THEN (IF front THEN mt \o S.tag[dst] ELSE S.tag[dst] \o mt)
+                                            ELSE IF b = src THEN Drop(S.tag[src], k) ELSE S.tag[b]]]
   IN IF srcFirst THEN Changed(Changed(S1, src, 0, Bytes(m)), dst, Bytes(m), 0)
      ELSE Changed(Changed(S1, dst, Bytes(m), 0), src, 0, Bytes(m))
 
@@ -212,8 +233,10 @@ ApplyOp(S, op) ==
   IN
   CASE op.a = "add" ->
          IF S.fe[b] THEN R(S, -1) ELSE R(Append_(S, b, op.d), 0)
-    [] op.a = "addref" ->
-         IF S.fe[b] THEN R(S, -1) ELSE R(Append_(S, b, op.d), 0)
+    [] op.a = "addref" ->             \* on failure the cleanup callback is never owed (the chain is dropped uncalled)
+         IF S.fe[b] THEN R(S, -1)
+         ELSE LET S1 == NewId(S, 0) IN
+              R(AppendT([S1 EXCEPT !.own = @ \cup {S1.nid}], b, op.d, [i \in 1..Len(op.d) |-> S1.nid]), 0)
     [] op.a = "prepend" ->
          IF op.d = <<>> THEN R(S, 0)
          ELSE IF S.fs[b] THEN R(S, -1) ELSE R(Prepend_(S, b, op.d), 0)
@@ -242,12 +265,24 @@ ApplyOp(S, op) ==
     [] op.a = "addbufref" ->          \* evbuffer_add_buffer_reference(dst = b, src = op.s)
          IF S.buf[op.s] = <<>> THEN R(S, 0)
          ELSE IF S.fe[b] \/ op.s = b THEN R(S, -1)
-         ELSE R([Append_(S, b, S.buf[op.s]) EXCEPT !.sp[b] = TRUE], 0)
+         ELSE LET st_ == S.tag[op.s]
+                  \* one fresh id per distinct referenced id in the source (a multicast chain per source chain)
+                  ids == {st_[i] : i \in 1..Len(st_)} \ {0}
+                  RECURSIVE Mk(_, _, _)
+                  Mk(T, todo, map) == IF todo = {} THEN [s |-> T, m |-> map]
+                                      ELSE LET x == CHOOSE y \in todo : \A z \in todo : y <= z
+                                               T1 == NewId(T, x)
+                                           IN Mk(T1, todo \ {x}, map @@ (x :> T1.nid))
+                  mk == Mk(S, ids, (0 :> 0))
+              IN R([AppendT(mk.s, b, S.buf[op.s], [i \in 1..Len(st_) |-> mk.m[st_[i]]]) EXCEPT !.sp[b] = TRUE], 0)
     [] op.a = "addfile" ->            \* file segment over op.d, add_file_segment(off, len) (len -1 = to the end)
          LET fl == Len(op.d)
              ln == IF op.len < 0 THEN fl - op.off ELSE op.len
-         IN IF S.fe[b] \/ op.off > fl \/ op.off + ln > fl THEN R(S, -1)
-            ELSE R([Append_(S, b, SubSeq(op.d, op.off + 1, op.off + ln)) EXCEPT !.sp[b] = TRUE], 0)
+             S1 == NewId(S, 0)
+             S2 == [S1 EXCEPT !.own = @ \cup {S1.nid}, !.seg = @ \cup {S1.nid}]
+         IN \* the segment's cleanup is owed in both cases: on failure the library drops the last reference at once
+            IF S.fe[b] \/ op.off > fl \/ op.off + ln > fl THEN R(S2, -1)
+            ELSE R([AppendT(S2, b, SubSeq(op.d, op.off + 1, op.off + ln), [i \in 1..ln |-> S2.nid]) EXCEPT !.sp[b] = TRUE], 0)
     [] op.a = "drain" ->
          IF s = <<>> THEN R(S, 0)
          ELSE IF S.fs[b] THEN R(S, -1)
@@ -264,8 +299,13 @@ ApplyOp(S, op) ==
             ELSE RX(S, BP(s, k), [d |-> Str(Take(s, k))])
     [] op.a = "pullup" ->             \* op.n = -1: everything.  r = 1 iff non-NULL
          LET k == IF op.n < 0 THEN Len(s) ELSE op.n
+             tg == S.tag[b]
+             \* the first k symbols get copied into one plain chain unless the first chain already holds them:
+             \* a referenced first chain holds exactly its own run; plain symbols only are never re-tagged
+             run1 == IF tg = <<>> \/ tg[1] = 0 THEN 0 ELSE Span(tg, 0, {tg[1]})
+             copy == (\E i \in 1..k : tg[i] # 0) /\ ~(run1 >= k)
          IN IF k > Len(s) \/ BP(s, k) = 0 THEN RX(S, 0, [d |-> ""])
-            ELSE RX(S, 1, [d |-> Str(Take(s, k))])
+            ELSE RX((IF copy THEN [S EXCEPT !.tag[b] = [i \in 1..Len(tg) |-> IF i <= k THEN 0 ELSE tg[i]]] ELSE S), 1, [d |-> Str(Take(s, k))])
     [] op.a = "expand" -> R(S, 0)
     [] op.a = "readln" ->
          LET e == Eol(s, 0, op.y)
@@ -278,6 +318,34 @@ ApplyOp(S, op) ==
          R((IF op.w = 1 THEN [S EXCEPT !.fs[b] = TRUE] ELSE [S EXCEPT !.fe[b] = TRUE]), 0)
     [] op.a = "unfreeze" ->
          R((IF op.w = 1 THEN [S EXCEPT !.fs[b] = FALSE] ELSE [S EXCEPT !.fe[b] = FALSE]), 0)
+    (* ---- socket I/O (C16).  op.d is first made available on the socket; op.n / op.hm = howmuch in symbols /
+       bytes (-1: no limit); op.k / op.kb = the most the scripted system call transfers (-1: unlimited);
+       op.e = errno the system call fails with (0: none) *)
+    [] op.a = "evread" ->
+         LET fin == S.fdin \o op.d
+             S1 == [S EXCEPT !.fdin = fin]
+             lim == IF op.n < 0 THEN Len(fin) ELSE Min(op.n, Len(fin))
+             m == IF op.k < 0 THEN lim ELSE Min(op.k, lim)
+         IN IF S.fe[b] \/ op.e # 0 THEN R(S1, -1)
+            ELSE IF op.k = 0 THEN R(S1, 0)                            \* the system call reads 0 bytes
+            ELSE IF fin = <<>> THEN R(S1, -1)                         \* empty socket: EAGAIN
+            ELSE R(Append_([S1 EXCEPT !.fdin = Drop(fin, m)], b, Take(fin, m)), BP(fin, m))
+    [] op.a = "evwrite" ->            \* evbuffer_write_atmost(b, fd, hm) / evbuffer_write (hm = -1)
+         LET lim == IF op.n < 0 THEN Len(s) ELSE Min(op.n, Len(s))
+             m == IF op.k < 0 THEN lim ELSE Min(op.k, lim)
+         IN IF S.fs[b] THEN RX(S, -1, [w |-> ""])
+            ELSE IF BP(s, lim) = 0 THEN RX(S, -1, [w |-> ""])       \* named deviation: nothing to write returns -1
+            ELSE IF op.e # 0 THEN RX(S, -1, [w |-> ""])
+            ELSE IF m = 0 THEN RX(S, 0, [w |-> ""])
+            ELSE RX(DropFront(S, b, m), BP(s, m), [w |-> Str(Take(s, m))])
+    [] op.a = "sfwrite" ->            \* a fresh DRAINS_TO_FD buffer holding one sendfile segment op.d[off..], written with write_atmost
+         LET fl == Drop(op.d, op.off)
+             lim == IF op.n < 0 THEN Len(fl) ELSE Min(op.n, Len(fl))
+             m == IF op.k < 0 THEN lim ELSE Min(op.k, lim)
+         IN IF BP(fl, lim) = 0 THEN RX(S, -1, [w |-> "", rest |-> Bytes(fl)])
+            ELSE IF op.e \in {4, 11} THEN RX(S, 0, [w |-> "", rest |-> Bytes(fl)])     \* EINTR / EAGAIN: 0 bytes, retry later
+            ELSE IF op.e # 0 THEN RX(S, -1, [w |-> "", rest |-> Bytes(fl)])
+            ELSE RX(S, BP(fl, m), [w |-> Str(Take(fl, m)), rest |-> Bytes(fl) - BP(fl, m)])
     (* ---- callbacks (C13) *)
     [] op.a = "cbadd" ->
          R([S EXCEPT !.cb[b][op.k] = [on |-> TRUE, en |-> TRUE, nd |-> FALSE], !.cbo[b] = <<op.k>> \o @], 0)
@@ -336,12 +404,33 @@ OpsOf(S, fam) ==
     [] fam = "readln" -> {[a |-> "readln", b |-> b, y |-> y] : b \in Bufs, y \in 0..4}
     [] fam = "freeze" -> {[a |-> "freeze", b |-> b, w |-> x] : b \in Bufs, x \in {0, 1}}
     [] fam = "unfreeze" -> {[a |-> "unfreeze", b |-> b, w |-> x] : b \in Bufs, x \in {0, 1}}
+    [] fam = "evread" -> UNION {{[a |-> "evread", b |-> b, d |-> d, n |-> n, hm |-> IF n < 0 THEN -1 ELSE NB_(S.fdin \o d, n),
+                                   k |-> k, kb |-> IF k < 0 THEN -1 ELSE NB_(S.fdin \o d, k), e |-> e] :
+                                   n \in {x \in NSel \cup {-1} : x # 0 /\ x <= Len(S.fdin \o d) + 1},
+                                   k \in {x \in NSel \cup {-1} : x <= Len(S.fdin \o d)}, b \in Bufs, e \in {0, 4, 11, 104}} : d \in Datas}
+    [] fam = "evwrite" -> UNION {{[a |-> "evwrite", b |-> b, n |-> n, hm |-> IF n < 0 THEN -1 ELSE NB_(S.buf[b], n),
+                                    k |-> k, kb |-> IF k < 0 THEN -1 ELSE NB_(S.buf[b], k), e |-> e] :
+                                    n \in NChoices(S.buf[b]) \cup {-1}, k \in {x \in NSel \cup {-1} : x <= Len(S.buf[b])},
+                                    e \in {0, 4, 11, 32}} : b \in Bufs}
+    [] fam = "sfwrite" -> {[a |-> "sfwrite", b |-> 1, d |-> FileData, off |-> off, ob |-> BP(FileData, off),
+                            n |-> n, hm |-> IF n < 0 THEN -1 ELSE NB_(Drop(FileData, off), n),
+                            k |-> k, kb |-> IF k < 0 THEN -1 ELSE NB_(Drop(FileData, off), k), e |-> e] :
+                             off \in {0, 1, 4}, n \in {-1, 0, 1, 2, 4, 5}, k \in {-1, 0, 1, 3}, e \in {0, 4, 11, 32}}
     [] fam = "cbadd" -> UNION {{[a |-> "cbadd", b |-> b, k |-> k] : k \in {x \in 1..NCB : ~S.cb[b][x].on}} : b \in Bufs}
     [] fam = "cbdel" -> UNION {{[a |-> "cbdel", b |-> b, k |-> k] : k \in {x \in 1..NCB : S.cb[b][x].on}} : b \in Bufs}
     [] fam = "cbflag" -> UNION {{[a |-> "cbflag", b |-> b, k |-> k, f |-> f, v |-> v] :
                                    k \in {x \in 1..NCB : S.cb[b][x].on}, f \in {1, 2}, v \in {0, 1}} : b \in Bufs}
     [] fam = "loop" -> {[a |-> "loop", b |-> 1]}
     [] OTHER -> {}
+
+KnownMcPull(i, op) ==
+  CASE i = 0 -> op.a = "add" /\ op.b = 1 /\ op.d # <<>>
+    [] i = 1 -> op.a = "addbufref" /\ op.b = 2 /\ op.s = 1
+    [] i = 2 -> op.a = "add" /\ op.b = 2 /\ op.d # <<>>
+    [] i = 3 -> op.a = "pullup" /\ op.b = 2 /\ op.n = -1
+    [] i = 4 -> op.a = "add" /\ op.b = 1 /\ op.d # <<>>
+    [] i = 5 -> op.a = "pullup" /\ op.b = 1 /\ op.n = -1
+    [] OTHER -> FALSE
 
 (* growth bound and de-duplication of no-op instances *)
 OpSane(S, op) ==
@@ -353,16 +442,35 @@ OpSane(S, op) ==
   \* AvoidKnown: add_buffer_reference into an empty buffer that still owns an empty chain uses the chain
   \* after freeing it (finding addbufref-empty-dst-chain); replayed separately under "abr0" \in Acts
   /\ (op.a = "addbufref" /\ S.ec[op.b] /\ S.buf[op.s] # <<>> => "abr0" \in Acts)
+  \* AvoidKnown: moving multicast chains back into the buffer they reference creates a reference cycle
+  \* (the buffer holds a reference on itself and is never freed; finding multicast-self-reference-cycle)
+  /\ (op.a \in {"addbuf", "prependbuf"} /\ op.s # op.b /\ S.mo[op.s] => "cyc" \in Acts)
+  /\ (op.a = "rmbuf" /\ op.s # op.b /\ op.nb > 0 /\ S.mo[op.b] => "cyc" \in Acts)
   /\ (op.a = "addfile" => Len(S.buf[op.b]) + 4 <= MaxLen)
   /\ (op.a \in {"addbuf", "prependbuf", "addbufref"} => (op.s # op.b => Len(S.buf[op.b]) + Len(S.buf[op.s]) <= MaxLen))
   /\ (op.a = "rmbuf" => Len(S.buf[op.s]) + NClip(S.buf[op.b], op.n) <= MaxLen)
+  \* AvoidKnown: evbuffer_pullup extends a shared (multicast / referenced) chain in place (finding
+  \* multicast-pullup-shared-memory); its canonical history is generated under "mcpull" \in Acts
+  /\ (op.a = "pullup" /\ S.mcu => "mcpull" \in Acts)
+  /\ ("mcpull" \in Acts => KnownMcPull(Len(hist), op))
+  /\ (op.a = "evread" => Fits(S, op.b, S.fdin \o op.d) /\ Bytes(S.fdin \o op.d) <= 4096 /\ (op.e # 0 => op.k = -1))
+  /\ (op.a \in {"evwrite", "sfwrite"} => (op.e # 0 => op.k = -1))
+  \* AvoidKnown: evbuffer_write_sendfile ignores howmuch (finding sendfile-ignores-howmuch): only generate
+  \* sendfile writes whose howmuch does not bind, or where the scripted system call stops first
+  /\ (op.a = "sfwrite" /\ op.e = 0 /\ op.n >= 0 /\ op.n < Len(Drop(op.d, op.off)) /\ (op.k < 0 \/ op.k > op.n) => "sfhm" \in Acts)
+  \* C15 predicts the moment of every cleanup: zero-length segments sit in an empty chain whose release is layout-dependent
+  /\ (op.a = "addfile" /\ "c15" \in Acts => (op.off < Len(op.d) /\ op.len # 0))
   /\ (op.a = "freeze" => ~(IF op.w = 1 THEN S.fs[op.b] ELSE S.fe[op.b]))
   /\ (op.a = "unfreeze" => (IF op.w = 1 THEN S.fs[op.b] ELSE S.fe[op.b]))
   /\ (op.a = "cbflag" => (IF op.f = 1 THEN S.cb[op.b][op.k].en ELSE S.cb[op.b][op.k].nd) # (op.v = 1))
   /\ (op.a = "cbflag" /\ op.f = 2 => "nodefer" \in Acts)
   /\ (op.a = "loop" => CbMode = 2)
 
-Obs(S, o) == IF CbMode = 0 THEN o @@ [q |-> [b \in Bufs |-> QB(S, b)]]
+AllTags(S) == UNION {{S.tag[b][i] : i \in 1..Len(S.tag[b])} : b \in Bufs}
+Live(S, x) == x \in AllTags(S) \/ \E c \in AllTags(S) \ {0} : S.par[c] = x
+Cleaned(S) == {x \in S.own : ~Live(S, x)}
+ObsC(S) == [rc |-> Cardinality(Cleaned(S) \ S.seg), sc |-> Cardinality(Cleaned(S) \cap S.seg), bad |-> 0]
+Obs(S, o0) == LET o == IF "c15" \in Acts THEN o0 @@ ObsC(S) ELSE o0 IN IF CbMode = 0 THEN o @@ [q |-> [b \in Bufs |-> QB(S, b)]]
              ELSE o @@ [q |-> [b \in Bufs |-> QB(S, b)], cb |-> S.cblog]
 
 (* One call: the new state and the complete observation *)
@@ -371,7 +479,12 @@ StepR(S, op) ==
       S2 == [Rr.s EXCEPT !.ec = [b \in Bufs |->
                 IF Rr.s.buf[b] # <<>> THEN FALSE
                 ELSE IF op.a \in {"expand", "add", "printf", "rescommit", "addiov", "addfile"} /\ op.b = b /\ Rr.o.r # -1 THEN TRUE
-                ELSE IF S.buf[b] # <<>> THEN FALSE ELSE S.ec[b]]]
+                ELSE IF S.buf[b] # <<>> THEN FALSE ELSE S.ec[b]],
+                          !.mo = [b \in Bufs |->
+                IF Rr.s.buf[b] = <<>> THEN FALSE
+                ELSE IF op.a = "addbufref" /\ op.b = b /\ op.s # b /\ Rr.o.r = 0 /\ S.buf[op.s] # <<>> THEN TRUE
+                ELSE S.mo[b]],
+                          !.mcu = @ \/ (op.a = "addbufref" /\ op.s # op.b /\ Rr.o.r = 0 /\ S.buf[op.s] # <<>>)]
   IN [s |-> S2, r |-> Rr.o]
 Step(S, op) == LET x == StepR(S, op) IN [s |-> x.s, o |-> Obs(x.s, x.r)]
 
@@ -386,7 +499,11 @@ Do(fam) ==
   /\ fam \in Acts
   /\ Len(hist) < D
   /\ pend = NoOp
-  /\ \E op \in OpsOf(st, fam) : OpSane(st, op) /\ pend' = op
+  /\ (Len(hist) < Warm => fam = "add")
+  /\ \E op \in OpsOf(st, fam) :
+       /\ OpSane(st, op)
+       /\ (Len(hist) < Warm => op.b = 1 /\ op.d \in {<<"a">>, <<"b">>})
+       /\ pend' = op
   /\ UNCHANGED <<st, hist>>
 
 Apply ==
@@ -418,11 +535,14 @@ CbAdd == Do("cbadd")
 CbDel == Do("cbdel")
 CbFlag == Do("cbflag")
 Loop == Do("loop")
+EvRead == Do("evread")
+EvWrite == Do("evwrite")
+SfWrite == Do("sfwrite")
 
 Init == st = InitSt /\ hist = <<>> /\ pend = NoOp
 Next == Add \/ AddRef \/ Prepend \/ Printf \/ AddIov \/ ResCommit \/ AddBuf \/ PrependBuf \/ RmBuf
         \/ AddBufRef \/ AddFile \/ Drain \/ Remove \/ Copyout \/ Pullup \/ Expand \/ Readln
-        \/ Freeze \/ Unfreeze \/ CbAdd \/ CbDel \/ CbFlag \/ Loop \/ Apply
+        \/ Freeze \/ Unfreeze \/ CbAdd \/ CbDel \/ CbFlag \/ Loop \/ EvRead \/ EvWrite \/ SfWrite \/ Apply
 Spec == Init /\ [][Next]_vars
 
 ----------------------------------------------------------------------------
@@ -452,10 +572,17 @@ MovesConserve == (pend # NoOp /\ pend.a \in {"addbuf", "prependbuf", "rmbuf"}) =
 (* C12/C14: a failed call (r = -1) changes nothing and reports nothing *)
 FailureUnchanged ==
   (pend # NoOp /\ Nxt.o.r = -1)
-    => (Nxt.s.buf = st.buf /\ Nxt.s.fs = st.fs /\ Nxt.s.fe = st.fe /\ Nxt.s.cb = st.cb /\ Nxt.s.acc = st.acc /\ Nxt.s.cblog = <<>>)
+    => ((pend.a = "evread" \/ Nxt.s.fdin = st.fdin) /\ Nxt.s.buf = st.buf /\ Nxt.s.fs = st.fs /\ Nxt.s.fe = st.fe /\ Nxt.s.cb = st.cb /\ Nxt.s.acc = st.acc /\ Nxt.s.cblog = <<>>)
 (* C12: a returned count is the number of bytes that really moved *)
 CountsExact ==
-  (pend # NoOp /\ pend.a \in {"remove", "rmbuf"} /\ Nxt.o.r >= 0) => Bytes(st.buf[pend.b]) - Bytes(Nxt.s.buf[pend.b]) = Nxt.o.r
+  /\ ((pend # NoOp /\ pend.a \in {"remove", "rmbuf", "evwrite"} /\ Nxt.o.r >= 0) => Bytes(st.buf[pend.b]) - Bytes(Nxt.s.buf[pend.b]) = Nxt.o.r)
+  \* C16: evbuffer_read appends exactly what left the socket; write_atmost never removes more than requested
+  /\ ((pend # NoOp /\ pend.a = "evread" /\ Nxt.o.r >= 0)
+        => /\ Bytes(Nxt.s.buf[pend.b]) - Bytes(st.buf[pend.b]) = Nxt.o.r
+           /\ Bytes(st.fdin \o pend.d) - Bytes(Nxt.s.fdin) = Nxt.o.r
+           /\ Nxt.s.buf[pend.b] \o Nxt.s.fdin = st.buf[pend.b] \o st.fdin \o pend.d)
+  /\ ((pend # NoOp /\ pend.a \in {"evwrite", "sfwrite"} /\ pend.hm >= 0) => Nxt.o.r <= pend.hm)
+  /\ ((pend # NoOp /\ pend.a \in {"evwrite", "sfwrite", "evread"} /\ pend.kb >= 0) => Nxt.o.r <= pend.kb)
 
 (* C13 on the model: the accounting ledger equals the real length (every change of a buffer is
    accounted with the right added/deleted amounts); every report is consistent with the length;
@@ -469,6 +596,15 @@ NothingPending == \A b \in Bufs : /\ st.acc[b][1] >= 0 /\ st.acc[b][2] >= 0
 DisabledSilent ==
   pend # NoOp => \A j \in 1..Len(Nxt.s.cblog) : LET rp == Nxt.s.cblog[j] IN st.cb[rp.b][rp.cb].on /\ st.cb[rp.b][rp.cb].en
 LoopFlushes == (pend # NoOp /\ pend.a = "loop") => (Nxt.s.pq = <<>> /\ \A b \in Bufs : AnyCb(st, b) => Nxt.s.acc[b] = <<0, 0>>)
+
+(* C15 on the model: tags follow the symbols; a cleanup is owed exactly while some byte depends on the object *)
+TagsParallel == \A b \in Bufs : Len(st.tag[b]) = Len(st.buf[b]) /\ \A i \in 1..Len(st.tag[b]) : st.tag[b][i] \in 0..st.nid
+CleanupExactlyOnce ==       \* the cleaned set only grows, and nothing is cleaned while a byte depends on it
+  pend # NoOp => /\ Cleaned(st) \subseteq Cleaned(Nxt.s)
+                 /\ \A x \in Cleaned(Nxt.s) : ~Live(Nxt.s, x)
+ReadBackEqualsSource ==     \* symbols tagged with one id form one contiguous run inside a buffer (one chain)
+  \A b \in Bufs : \A i, j \in 1..Len(st.tag[b]) :
+     (i < j /\ st.tag[b][i] # 0 /\ st.tag[b][i] = st.tag[b][j]) => \A m \in i..j : st.tag[b][m] = st.tag[b][i]
 
 Inv == TypeOK /\ SearchSound /\ EolSound /\ MovesConserve /\ FailureUnchanged /\ CountsExact
        /\ LedgerExact /\ ReportConsistent /\ NothingPending /\ DisabledSilent /\ LoopFlushes
